@@ -38,6 +38,7 @@ inductive Err
   | assertion       -- `assert self.choice and self.choice.hostname`, `build()`'s assert
   | typeError       -- `pattern.match(None)`
   | plugin          -- whatever the plugin's `handle_route` raised
+  | keyError        -- `request.header(b'host')` in `emit_request_complete` without a Host field
   deriving DecidableEq, Repr
 
 def urlErr : Px.Url.Err → Err
@@ -221,14 +222,42 @@ def webPath (req : Parser) : Bytes :=
   | some x => if x.isEmpty then [SLASH] else x
   | none => [SLASH]
 
-/-- `HttpWebServerPlugin.on_request_complete()` for a completed web-server
-    request when the only web plugin is `ReverseProxy` and the static server is off. -/
+/-- `HttpWebServerPlugin.emit_request_complete()`: with `--enable-events` a REQUEST_COMPLETE
+    event is published whose payload is a *copy* (url / method / decoded header names and values /
+    body); the request object itself is not changed, so the only thing that matters for what
+    follows is whether building the payload raises:
+    `assert self.request.port`, `self.request.header(b'host')` (KeyError without a Host field),
+    strict `text_()` of the Host value, path, method and every header name and value. -/
+def emitRequestComplete (events : Bool) (req : Parser) : Option Err :=
+  if !events then none
+  else if !(match req.port with | some v => v != 0 | none => false) then some .assertion
+  else
+    match Px.Parser.header req (b "host") with
+    | .error _ => some .keyError
+    | .ok hv =>
+      let opt (x : Option Bytes) : Bool := match x with | some y => utf8Valid y | none => true
+      if utf8Valid hv && opt req.path && opt req.method &&
+          (req.headers.getD []).all (fun e => utf8Valid e.1 && utf8Valid e.2.2)
+      then none else some .valueError
+
+/-- `on_request_complete()` after `emit_request_complete()` (all of it when `--enable-events` is
+    off): `_try_route`, else 404.  The only web plugin is `ReverseProxy`, the static server is off. -/
 def onRequestComplete (cfg : Cfg) (m : Nat → Bool) (pick : Nat → Nat) (connectOk : Bool)
     (t : Table) (req : Parser) (s : St) : Res :=
   -- `route.match(text_(path))` is evaluated once a route is registered
   if t.any (fun p => !p.isEmpty) && !utf8Valid (webPath req) then ⟨s, true, some .valueError⟩
   else if anyMatch m t then handleRequest cfg m pick connectOk t req s
   else ⟨{ s with client := s.client.queue cfg.notFound }, true, none⟩
+
+/-- `HttpWebServerPlugin.on_request_complete()` for a completed web-server
+    request when the only web plugin is `ReverseProxy` and the static server is off:
+    `emit_request_complete()` first (an exception there escapes), then routing with the
+    very same request object.  `events` is `--enable-events`. -/
+def onRequestCompleteEv (cfg : Cfg) (events : Bool) (m : Nat → Bool) (pick : Nat → Nat) (connectOk : Bool)
+    (t : Table) (req : Parser) (s : St) : Res :=
+  match emitRequestComplete events req with
+  | some e => ⟨s, true, some e⟩
+  | none => onRequestComplete cfg m pick connectOk t req s
 
 /-- outcome of `self.upstream.recv(...)` when the upstream descriptor is readable -/
 inductive UpEv
